@@ -742,3 +742,76 @@ Proof.
   intros Hr. destruct (height_monotone h1 h2) as [n1 [n2 [H1 [H2 L]]]].
   cbn [step snd] in Hr. rewrite H1 in Hr. inversion Hr; subst. eauto.
 Qed.
+
+(* ---- SetHeight: never lowers, always raises; the height record as bytes ------------------------- *)
+(* one SetHeight from ANY image with a readable height: it returns without error and the recorded height afterwards
+   is the maximum of the old height and the argument - never lower than before, never lower than what was asked *)
+Theorem set_height_max (m : img) (n cur : N) :
+  c_height m = Some cur ->
+  snd (istep m (IOp (OSetHeight n))) = Some RUnit /\
+  c_height (fst (istep m (IOp (OSetHeight n)))) = Some (N.max cur n).
+Proof.
+  intros Hh. cbn [istep step]. rewrite Hh.
+  destruct (N.leb_spec n cur) as [Hle|Hlt]; cbn [fst snd].
+  - split; [reflexivity|]. rewrite aw_nil, Hh. f_equal. lia.
+  - split; [reflexivity|]. unfold c_height. rewrite aw_put, kv_get_put_same. f_equal. lia.
+Qed.
+
+Lemma outputs_app h1 h2 : forall m,
+  snd (run m (h1 ++ h2)) = snd (run m h1) ++ snd (run (fst (run m h1)) h2).
+Proof.
+  induction h1 as [|i h1 IH]; intros m; [reflexivity|].
+  rewrite <- app_comm_cons, !run_cons; cbn [fst snd]. rewrite IH. reflexivity.
+Qed.
+
+(* the same over histories: after ANY history (operations, reopenings, crashes, write faults) Height() reports some
+   cur, and SetHeight(n) followed by Height() returns no error and reports max cur n *)
+Theorem set_height_then_height (h : list item) (n : N) :
+  exists cur, snd (step (final h) OHeight) = RHeight cur /\
+    outputs (h ++ [IOp (OSetHeight n); IOp OHeight]) = outputs h ++ [Some RUnit; Some (RHeight (N.max cur n))].
+Proof.
+  destruct (c_height_run h [] 0%N eq_refl) as [cur [Hcur _]]. fold (final h) in Hcur.
+  exists cur. split; [cbn [step snd]; rewrite Hcur; reflexivity|].
+  unfold outputs. rewrite outputs_app. f_equal. fold (final h).
+  destruct (set_height_max (final h) n cur Hcur) as [Hr Hm].
+  rewrite run_cons, Hr. f_equal.
+  rewrite run_cons. cbn [run snd]. f_equal.
+  set (m1 := fst (istep (final h) (IOp (OSetHeight n)))) in *.
+  cbn [istep step fst snd]. rewrite Hm. reflexivity.
+Qed.
+
+(* the 8-byte little-endian record: decoding an encoded height gives the height back, for every uint64 *)
+Lemma le_bytes_length k : forall n, length (le_bytes k n) = k.
+Proof. induction k as [|k IH]; intros n; cbn [le_bytes length]; [reflexivity | rewrite IH; reflexivity]. Qed.
+
+Lemma le_value_bytes k : forall n, le_value (le_bytes k n) = (n mod 256 ^ N.of_nat k)%N.
+Proof.
+  induction k as [|k IH]; intros n.
+  - cbn [le_bytes le_value]. change (256 ^ N.of_nat 0)%N with 1%N. rewrite N.mod_1_r. reflexivity.
+  - cbn [le_bytes le_value]. rewrite IH, Nat2N.inj_succ, N.pow_succ_r'.
+    rewrite N.mod_mul_r; [reflexivity | lia | apply N.pow_nonzero; lia].
+Qed.
+
+Theorem height_codec (n : N) : (n < 2 ^ 64)%N -> dec_height (enc_height n) = Some n.
+Proof.
+  intros Hn. unfold dec_height, enc_height. rewrite le_bytes_length, Nat.eqb_refl, le_value_bytes.
+  f_equal. apply N.mod_small. exact Hn.
+Qed.
+
+(* hence the encoding is injective on uint64: different heights are different records *)
+Theorem enc_height_inj (a b : N) : (a < 2 ^ 64)%N -> (b < 2 ^ 64)%N -> enc_height a = enc_height b -> a = b.
+Proof.
+  intros Ha Hb E. pose proof (height_codec a Ha) as Da. rewrite E, (height_codec b Hb) in Da. inversion Da; reflexivity.
+Qed.
+
+(* ---- SaveBlockData is ONE atomic write, whatever the block -------------------------------------- *)
+(* for every image, header, data and signature (the model does not look at the data, so: whatever its size) the save
+   is exactly one batch, and header, data, signature record and hash index are all in that batch *)
+Theorem save_one_batch (m : img) hd d s :
+  exists ps, fst (step m (OSave hd d s)) = [WBatch ps] /\
+    In (Put (header_key (hheight hd)) (VHeader hd)) ps /\ In (Put (data_key (hheight hd)) (VData d)) ps /\
+    In (Put (sig_key (hheight hd)) (VSig s)) ps /\ In (Put (index_key (hhash hd)) (VHeight (hheight hd))) ps.
+Proof.
+  exists (save_prims m hd d s). split; [reflexivity|]. unfold save_prims.
+  repeat split; apply in_or_app; right; cbn [In]; tauto.
+Qed.
